@@ -18,6 +18,9 @@ type Budgets struct {
 	Instrs    int
 	CallDepth int
 	Preempt   int
+	// Termination: the property under check includes termination, so a path that exhausts the
+	// instruction/call-depth budget is a violation candidate (confirmed natively with a watchdog)
+	Termination bool
 }
 
 type ChoiceRec struct {
